@@ -25,6 +25,8 @@ def _stage(workdir, module_path_hint=None):
                     shutil.copy2(src, dst)
 
 
+APP_ALL = re.compile(r'<<\s*"APP",\s*(\d+)\s*>>')
+REJ_ALL = re.compile(r'<<\s*"REJECT",\s*(\d+),\s*\{(.*?)\}\s*>>', re.S)
 APP_RE = re.compile(r'^<<"APP",\s*(\d+)>>\s*$')
 REJ_RE = re.compile(r'^<<"REJECT",\s*(\d+),\s*\{(.*)\}>>\s*$')
 
@@ -42,7 +44,7 @@ class TraceResult:
         self.output_tail = ""
 
 
-def run_trace(module, trace_file, enabled, workdir, start_line=1, timeout=3600, n_events=None):
+def run_trace(module, trace_file, enabled, workdir, start_line=1, timeout=3600, n_events=None, has_cfg=True):
     """Validate one trace file against spec/trace/<module>.tla. Resumes after evaluation errors so
     that every line gets a verdict (a line whose evaluation fails is reported as eval error)."""
     _stage(workdir)
@@ -52,7 +54,8 @@ def run_trace(module, trace_file, enabled, workdir, start_line=1, timeout=3600, 
     with open(cfg_path, "w") as f:
         f.write("SPECIFICATION Spec\nCHECK_DEADLOCK FALSE\nPOSTCONDITION Accepted\n")
         f.write("CONSTANT Enabled = {%s}\n" % ", ".join('"%s"' % e for e in sorted(enabled)))
-        f.write("CONSTANT Cfg <- TraceCfg\n")
+        if has_cfg:
+            f.write("CONSTANT Cfg <- TraceCfg\n")
     start = start_line
     guard = 0
     while True:
@@ -73,15 +76,11 @@ def run_trace(module, trace_file, enabled, workdir, start_line=1, timeout=3600, 
         out = p.stdout
         res.output_tail = out[-3000:]
         last_line_seen = start
-        for ln in out.splitlines():
-            ma = APP_RE.match(ln.strip())
-            if ma:
-                res.applicable.append(int(ma.group(1)))
-                continue
-            m = REJ_RE.match(ln.strip())
-            if m:
-                clauses = [c.strip().strip('"') for c in m.group(2).split(",") if c.strip()]
-                res.rejects.append((int(m.group(1)), clauses))
+        for ma in APP_ALL.finditer(out):
+            res.applicable.append(int(ma.group(1)))
+        for m in REJ_ALL.finditer(out):   # TLC pretty-prints long tuples over several lines
+            clauses = [c.strip().strip('"') for c in m.group(2).replace("\n", " ").split(",") if c.strip()]
+            res.rejects.append((int(m.group(1)), clauses))
         if "Model checking completed. No error has been found" in out:
             res.accepted = True
             break
@@ -134,7 +133,8 @@ def run_mc(module, cfg_file, workdir, workers=None, timeout=3600, extra=(), simu
     res = MCResult()
     t0 = time.time()
     if not os.path.isabs(cfg_file):
-        cfg_file = os.path.join(SPEC, "mc", cfg_file)
+        cand = [os.path.join(SPEC, d, cfg_file) for d in ("mc", "lib")]
+        cfg_file = next((c for c in cand if os.path.exists(c)), cand[0])
     cfg_dst = os.path.join(workdir, os.path.basename(cfg_file))
     shutil.copy2(cfg_file, cfg_dst)
     meta = os.path.join(workdir, "meta_mc_" + os.path.basename(cfg_file))
